@@ -7,7 +7,7 @@ open GV.Model.Pipeline
 
 /-- steps taken by the pipeline's own goroutines (workers, apply runner) -/
 def internal : Ev → Bool
-  | .sub _ | .fail | .cancel | .close | .pc _ | .pcq _ => false
+  | .sub _ | .fail | .start | .cancel | .close | .pc _ | .pcq _ | .pa _ | .pb _ => false
   | _ => true
 
 def runnerMeasure : Runner → Nat
@@ -60,11 +60,13 @@ theorem closed_step (c : Cfg) (hc : c.legacy = false) (s : St) (e : Ev) (s' : St
   · cases e
     all_goals try (simp [internal] at hi; done)
     all_goals
-      simp [step, hc, hcl] at hs
+      simp only [step, hc, hcl] at hs
+      repeat' split at hs
+    all_goals try (simp at hs; done)
     all_goals
-      first
-      | (subst hs; simp [internal, measure, hcl])
-      | (obtain ⟨_, hs⟩ := hs; subst hs; simp [internal, measure, hcl])
+      try injection hs with hs
+      subst hs
+      simp_all [internal, measure]
 
 /-- `stop_terminates`: after Stop has closed the submit channel, the pipeline goroutines can
     take at most `measure s` further steps, whatever the schedule. -/
